@@ -949,6 +949,8 @@ class Interp:
             return TypeV("tuple")
         if isinstance(v, DictObj):
             return TypeV("dict")
+        if isinstance(v, NodeV):
+            return TypeV("nodetype")
         raise Unsupported(node, "type of %r" % (v,))
 
     def call_method(self, bm, args, kwargs, node):
